@@ -2,6 +2,7 @@ package gocv
 
 import (
 	"fmt"
+	"sort"
 	"go/constant"
 	"go/types"
 	"math/big"
@@ -22,6 +23,7 @@ type cenv struct {
 	entryNames bool
 	bound      map[string]*Val
 	depth      int
+	goal       bool // the clause is being proved (not assumed): add witness candidates to exists
 }
 
 func (E *Engine) cenvFor(st *State, c *fnCtx, ctx *FileCtx) *cenv {
@@ -373,6 +375,15 @@ func (ev *cenv) quant(e *CExpr) *Val {
 			ground = append(ground, inst)
 		}
 	}
+	var witAlts []string
+	if e.Op == "exists" && ev.goal && len(binders) == 1 && strings.HasSuffix(binders[0], " Int)") && len(body) < 6000 {
+		// witness candidates: W(t) ==> exists k. W(k), so the disjunction is equivalent;
+		// it spares the solver from having to find a trigger for the witness.
+		name := binders[0][1:strings.LastIndex(binders[0], " ")]
+		for _, t := range ev.witnessCandidates() {
+			witAlts = append(witAlts, and(strings.ReplaceAll(g, name, t), strings.ReplaceAll(body, name, t)))
+		}
+	}
 	// Change of variables k -> j = OFF + k for element reads s[k] of a slice with a
 	// symbolic window offset: the reads become (select (select A ref) j), which
 	// gives arithmetic-free triggers.
@@ -429,7 +440,11 @@ func (ev *cenv) quant(e *CExpr) *Val {
 		}
 		return boolVal(q)
 	}
-	return boolVal(fmt.Sprintf("(exists (%s) %s)", strings.Join(binders, " "), and(g, body)))
+	ex := fmt.Sprintf("(exists (%s) %s)", strings.Join(binders, " "), and(g, body))
+	if len(witAlts) > 0 {
+		return boolVal(or(append([]string{ex}, witAlts...)...))
+	}
+	return boolVal(ex)
 }
 
 func (ev *cenv) fieldByName(v *Val, name string) (*Val, int, bool) {
@@ -1056,4 +1071,45 @@ func shiftOffset(body, v string) string {
 		}
 	}
 	return best
+}
+
+// witnessCandidates: integer terms in scope that are plausible witnesses for an
+// existential goal: integer locals (and their predecessors), slice lengths (and len-1).
+func (ev *cenv) witnessCandidates() []string {
+	if ev.st == nil {
+		return nil
+	}
+	seen := map[string]bool{}
+	var out []string
+	addT := func(t string) {
+		if t == "" || seen[t] || len(out) >= 16 {
+			return
+		}
+		seen[t] = true
+		out = append(out, t)
+	}
+	var names []string
+	for n := range ev.st.env {
+		names = append(names, n)
+	}
+	sort.Strings(names)
+	for _, n := range names {
+		v := ev.st.env[n]
+		if v == nil {
+			continue
+		}
+		if v.F == nil && v.Sort == SInt && v.S != "" {
+			if _, _, ok := intRange(v.T); ok {
+				addT(v.S)
+				addT(sub(v.S, "1"))
+			}
+		}
+		if v.F != nil && len(v.F) == 4 {
+			if sh := ev.E.shape(v.T); sh.Kind == "slice" {
+				addT(sub(v.F[2].S, "1"))
+				addT(v.F[2].S)
+			}
+		}
+	}
+	return out
 }
